@@ -36,12 +36,21 @@ def make_inputs(config, seed):
     vals = gen.unique_values(seed, 200)
     it = iter(vals)
 
+    counter = [0]
+
     def field(miss=()):
+        # every field gets its own permutation of 8 fresh values, so that no two fields are co-monotonic
+        counter[0] += 1
+        block = [next(it) for _ in range(8)]
+        stride = (3, 5, 7)[counter[0] % 3]
+        offset = counter[0] % 8
         d = {}
+        n = 0
         for ti in range(2):
             for li in range(2):
                 for si in range(2):
-                    v = next(it)
+                    v = block[(n * stride + offset) % 8]
+                    n += 1
                     if (ti, li, si) not in miss:
                         d[(ti, li, si)] = v
         return d
@@ -71,28 +80,34 @@ P1 = ("p", 1.0)
 Q5 = ("q", 0.5)
 MENU12 = [
     ev(["obs", "fcst"], 0, "all"), ev(["obs"], 0, "all", single=True), ev(["fcst"], 1, "all", single=True),
-    ev(["obs", "fcst"], 0, "no", 0), ev(["obs"], 0, "no", 0, single=True), ev(["fcst"], 0, "no", 0, single=True),
-    ev(["obs", "fcst"], 1, "no", 0), ev(["obs"], 1, "leadtime", 0, single=True), ev(["obs", "fcst"], 1, "location", 1),
-    ev(["fcst", "pit"], 0, "all"), ev(["pit"], 0, "no", 0, single=True), ev(["obs", P1], 1, "no", 0),
+    ev(["obs", "fcst"], 0, "no", 0), ev(["obs"], 0, "no", 0, single=True), ev(["obs", "fcst"], 1, "no", 0),
+    ev(["obs", "fcst"], 1, "location", 1), ev(["fcst", "pit"], 0, "all"), ev(["pit"], 0, "no", 0, single=True),
+    ev(["obs", P1], 1, "no", 0),
+    # three and four fields in an order that is not sorted by any natural key (as SpreadSkillRatio requests them)
+    ev(["obs", P1, "fcst"], 0, "no", 0), ev([Q5, P1, "fcst", "obs"], 1, "all"),
 ]
-MENU16 = MENU12 + [ev(["obs", "fcst"], 1, "all"), ev(["fcst"], 0, "time", 1, single=True),
-                   ev([Q5, "obs"], 0, "all"), ev(["obs", "fcst"], 0, "leadtimeday", 1)]
-MENU8 = [MENU12[i] for i in (0, 1, 3, 4, 5, 6, 8, 9)]
+MENU16 = MENU12 + [ev(["fcst"], 0, "no", 0, single=True), ev(["obs"], 1, "leadtime", 0, single=True),
+                   ev(["obs", "fcst"], 1, "all"), ev(["obs", "fcst"], 0, "leadtimeday", 1)]
+MENU8 = [MENU12[i] for i in (0, 1, 3, 4, 6, 7, 10, 11)]
 
 
 def big_menu(small=False):
     sets = [(["obs", "fcst"], False), (["obs"], True), (["fcst"], True), (["pit"], True), (["obs", P1], False),
-            (["fcst", "pit"], False)]
+            (["fcst", "pit"], False), (["obs", P1, "fcst"], False), ([Q5, P1, "fcst", "obs"], False)]
     axes = [("all", None), ("no", 0), ("time", 0), ("time", 1), ("leadtime", 0), ("leadtime", 1), ("location", 0),
             ("location", 1), ("month", 0)]
     if small:
-        sets = sets[:3] + sets[5:]
+        sets = sets[:3] + sets[6:]
         axes = [("all", None), ("no", 0), ("time", 1), ("leadtime", 0), ("location", 1)]
     menu = []
     for roles, single in sets:
         for inp in (0, 1):
             for ax, idx in axes:
                 menu.append(ev(roles, inp, ax, idx, single))
+    # whole metric computations as events (a metric must not disturb what later requests see)
+    for name in ("derror", "mae", "corr", "ets", "rankcorr", "leps"):
+        for ax in ("no", "leadtime"):
+            menu.append((("M", name), False, 0, ax, None))
     return menu
 
 
@@ -103,6 +118,8 @@ class DataMachine(object):
         self.seed = seed
         self.ainputs, self.aclim, self.kw = make_inputs(config, seed)
         self.ref = RD.RefData(self.ainputs, clim=self.aclim, **{k: v for k, v in self.kw.items()})
+        ov = sorted(v for v in self.ainputs[0].fields["obs"].values())
+        self.mid = ov[len(ov) // 2]
         self.fresh = {}
         for e in self.menu:
             obj = self.build(())
@@ -129,6 +146,17 @@ class DataMachine(object):
 
     def apply(self, obj, e):
         roles, single, inp, axis, index = e
+        if roles and roles[0] == "M":
+            import verif.metric
+            import verif.interval
+            m = verif.metric.get(roles[1])
+            iv = verif.interval.Interval(self.mid, np.inf, False, False)
+            kind, res, site, _ = H.quiet_call(m.compute, obj["data"], inp, RD.to_axis(axis), iv)
+            if kind == "crash":
+                raise res
+            if kind == "exit":
+                return ("exit",)
+            return ("ok", [np.array(res, dtype=float, copy=True)])
         fields = [RD.to_field(r) for r in roles]
         arg = fields[0] if single else fields
         kind, res, site, _ = H.quiet_call(obj["data"].get_scores, arg, inp, RD.to_axis(axis), index)
@@ -191,6 +219,8 @@ class DataMachine(object):
         for e in self.menu:
             roles, single, inp, axis, index = e
             fresh = self.fresh[e]
+            if roles and roles[0] == "M":
+                continue      # metric values are decided by C05/C06; here only their history independence
             if fresh[0] != "ok":
                 out.append(("fresh-request-%s" % ("crashes:" + fresh[1] if fresh[0] == "crash" else "rejected"), {"request": repr(e)}))
                 continue
